@@ -129,6 +129,10 @@ package twig
 // consume the EOF token.
 //@ func (*Parser).parseInclude props: C05
 //@   loop * invariant parser.tokenIndex < len(parser.tokens)
+// every entry of the `with` hash is handed to the included template: the name that is written gets
+// the expression that is written, whatever options follow (C11: with adds or overrides variables)
+//@   loop 2 snapshot i0 parser.tokenIndex
+//@   loop 2 step[C11,C08] has(variables, parser.tokens[i0].Value) && variables[parser.tokens[i0].Value] == pxe && pxk == 2
 
 // ---------------------------------------------------------------- dash insensitivity (C13)
 // Functions whose behaviour must not depend on whether a delimiter token carries a dash.
@@ -146,10 +150,10 @@ package twig
 // A dash trims exactly the whitespace set {space, tab, LF, CR} from the neighbouring text token
 // and changes nothing else: token types, lines and all other values are unchanged.
 
-//@ func trimLeadingWhitespace props: C13
+//@ func trimLeadingWhitespace props: C13 C04 C14
 //@   function
 //@   ensures ret == str_trimleft(s, " \t\n\r")
-//@ func trimTrailingWhitespace props: C13
+//@ func trimTrailingWhitespace props: C13 C04 C14
 //@   function
 //@   ensures ret == str_trimright(s, " \t\n\r")
 
@@ -199,8 +203,16 @@ package twig
 //@   atcall Node.Render forall k string :: has(a2.blocks, k) == has(ctx.blocks, k) && (has(ctx.blocks, k) ==> a2.blocks[k] == ctx.blocks[k])
 //@   atcall Node.Render forall k string :: has(a2.parentBlocks, k) == has(ctx.parentBlocks, k) && (has(ctx.parentBlocks, k) ==> a2.parentBlocks[k] == ctx.parentBlocks[k])
 //@   atcall Node.Render forall k string :: has(a2.context, k) == has(ctx.context, k) && (has(ctx.context, k) ==> a2.context[k] == ctx.context[k])
+// import ... as m: when it succeeds, m is bound in the importing context to a module map made by this
+// import (never one left by an earlier import under the same alias), holding what the imported
+// template defined (C12: a macro is the same macro through `import ... as m`)
 //@ func (*ImportNode).Render props: C17
 //@   flag errretry (*Engine).Load
+//@   loop 1 step[C12] has(macros, name) && macros[name] == macro
+//@   atcall[C12] (*RenderContext).SetVariable a0 == ctx && a1 == n.module && typeIs(a2, "map[string]interface{}") && unboxAs(a2, "map[string]interface{}") == macros
+//@   ensures[C12] ret == nil ==> has(ctx.context, n.module)
+//@   ensures[C12] ret == nil ==> typeIs(ctx.context[n.module], "map[string]interface{}")
+//@   ensures[C12] ret == nil ==> isFresh(unboxAs(ctx.context[n.module], "map[string]interface{}"))
 //@ func (*FromImportNode).Render props: C17
 //@   flag errretry (*Engine).Load
 // `ignore missing` turns a template that does not exist into empty output; every other failure
@@ -213,7 +225,7 @@ package twig
 //@   atcall (*RenderContext).SetVariable a0 != ctx && freshRef(a0)
 // (C03: the with-expressions are evaluated in the includer's context, which the loop over the map
 // of with-variables does not write - so their values cannot depend on its order)
-//@   atcall[C11,C17,C03] (*RenderContext).EvaluateExpression a0 == ctx
+//@   atcall[C11,C17,C03,C08] (*RenderContext).EvaluateExpression a0 == ctx
 //@   flag errretry (*Engine).Load
 //@   flag errtolerate n.ignoreMissing && errIs(pendErr, ErrTemplateNotFound) && ret == nil
 // Load: a loader that does not have the name is skipped (the first that has it wins) and a
@@ -246,7 +258,7 @@ package twig
 //@ func (*RenderContext).Clone props: C06 C01 C02 C05 C10 C11 C12
 //@   fresh
 //@   ensures ret.sandboxed == ctx.sandboxed && ret.env == ctx.env && ret.engine == ctx.engine && ret.parent == ctx
-//@   ensures[C01,C10,C11,C02,C05,C12] !ret.extending && ret.currentBlock == nil && ret.blockLevel == 0 && !ret.inParentCall
+//@   ensures[C01,C10,C11,C02,C05,C12,C03] !ret.extending && ret.currentBlock == nil && ret.blockLevel == 0 && !ret.inParentCall
 //@   ensures[C01,C11,C02,C05,C10,C12] mapEmpty(ret.context) && mapEmpty(ret.parentBlocks) && ret.lastLoadedTemplate == ctx.lastLoadedTemplate
 //@   ensures[C01,C10,C11,C02,C05,C12] ret.blocks != nil && ret.blocks != ctx.blocks && ret.macros != nil && ret.macros != ctx.macros
 // retiring a context touches that context only
@@ -523,6 +535,12 @@ package twig
 //@   atcall[C03] time.Now#7 typeIs(value, "float64") && f_eq(unboxAs(value, "float64"), 0.0)
 // the extension function behind parent() answers with a function its caller runs at once
 //@ list lazy_exempt (*CoreExtension).functionParent
+// a name that is neither a registered function nor a built-in one is looked up as a macro through the
+// whole chain of contexts (GetMacro), the same lookup every other call form uses (C12: _self.f() inside
+// another macro's body reaches f like f() does)
+//@ func (*RenderContext).CallFunction props: C12
+//@   atcall[C12] (*RenderContext).GetMacro a0 == ctx && a1 == name
+//@   ensures[C12] !ctx.sandboxed && !(ctx.env != nil && has(ctx.env.functions, name)) && name != "range" && name != "length" && name != "count" && name != "max" && name != "min" ==> lk == emitMacroLookup(old(lk), ctx, name)
 // what a macro call is worth: the text the macro renders
 //@ func renderMacroCall props: C08 C12
 //@   ensures[C08,C12] err == nil ==> typeIs(ret0, "string")
@@ -549,8 +567,19 @@ package twig
 //@   function
 //@ func (*RenderContext).equals props: C08
 //@   function
+// what a value prints as: a string is itself, an integer its decimal form, and a value that has a
+// String method what that method says (C20: time.Month prints March, not 3; the key a value indexes
+// a map with is this text)
 //@ func (*RenderContext).ToString props: C08 C03
 //@   function
+//@   ensures[C20,C07,C19] typeIs(val, "string") ==> ret == unboxAs(val, "string")
+//@   ensures[C20,C07,C19] typeIs(val, "int") ==> ret == decimal(unboxAs(val, "int"))
+//@   ensures[C20,C07,C19] typeIs(val, "int64") ==> ret == decimal(unboxAs(val, "int64"))
+//@   ensures[C20,C07,C19] typeIs(val, "uint") ==> ret == decimal(unboxAs(val, "uint"))
+//@   ensures[C20,C07,C19] typeIs(val, "uint64") ==> ret == decimal(unboxAs(val, "uint64"))
+//@   ensures[C20,C07,C19] typeIs(val, "int32") ==> ret == decimal(unboxAs(val, "int32"))
+//@   ensures[C20,C07,C19] typeIs(val, "uint8") ==> ret == decimal(unboxAs(val, "uint8"))
+//@   ensures[C20] val != nil && implements(val, "fmt.Stringer") && !(ufi_ikind(val) == 22 && uf_inil(val)) ==> ret == ufs_stringOf(val)
 // `in` on a list: "no" is answered only after every element was compared with equals (the map of
 // the elements that long lists are looked up in first can only say "yes")
 //@ func (*RenderContext).contains props: C08
@@ -593,6 +622,17 @@ package twig
 //@ func toString props: C07 C19
 //@   function
 //@   ensures[C19] typeIs(v, "string") ==> ret == unboxAs(v, "string")
+// an integer of any kind prints as its decimal form (what escape escapes is the text of the value)
+//@   ensures[C07,C19,C20] typeIs(v, "int") ==> ret == decimal(unboxAs(v, "int"))
+//@   ensures[C07,C19,C20] typeIs(v, "int8") ==> ret == decimal(unboxAs(v, "int8"))
+//@   ensures[C07,C19,C20] typeIs(v, "int16") ==> ret == decimal(unboxAs(v, "int16"))
+//@   ensures[C07,C19,C20] typeIs(v, "int32") ==> ret == decimal(unboxAs(v, "int32"))
+//@   ensures[C07,C19,C20] typeIs(v, "int64") ==> ret == decimal(unboxAs(v, "int64"))
+//@   ensures[C07,C19,C20] typeIs(v, "uint") ==> ret == decimal(unboxAs(v, "uint"))
+//@   ensures[C07,C19,C20] typeIs(v, "uint8") ==> ret == decimal(unboxAs(v, "uint8"))
+//@   ensures[C07,C19,C20] typeIs(v, "uint16") ==> ret == decimal(unboxAs(v, "uint16"))
+//@   ensures[C07,C19,C20] typeIs(v, "uint32") ==> ret == decimal(unboxAs(v, "uint32"))
+//@   ensures[C07,C19,C20] typeIs(v, "uint64") ==> ret == decimal(unboxAs(v, "uint64"))
 // Every position a filter can be applied at (filter chain of a print tag or of any expression, the
 // sequence of a for loop, an apply block) hands the name, the value and the arguments to ApplyFilter
 // and goes on with what ApplyFilter yields: the event of applying a filter is named, not interpreted
@@ -1017,9 +1057,16 @@ package twig
 //@ func (*Parser).parseSimpleExpression props: C05
 //@   loop 2 invariant hashable(tag(result))
 //@   loop 3 invariant hashable(tag(result))
+// every `| name` of the source becomes one filter application of that name on what stood before it:
+// no filter is dropped, renamed or reordered at parse time (C07: e and escape are applied wherever
+// they are written; C06: what the sandbox sees is what was written; C17: an unknown name reaches the
+// lookup that reports it)
 //@ func (*Parser).parseFilters props: C05
 //@   requires hashable(tag(node))
 //@   loop 1 invariant hashable(tag(cur(node)))
+//@   loop 1 snapshot n0 cur(node)
+//@   loop 1 snapshot i0 p.tokenIndex
+//@   loop 1 step[C07,C06,C17,C08] typeIs(cur(node), "*FilterNode") && unboxAs(cur(node), "*FilterNode").node == n0 && unboxAs(cur(node), "*FilterNode").filter == p.tokens[i0 + 1].Value
 //@ func (*Parser).parseExpression props: C05
 //@   loop * invariant hashable(tag(expr))
 //@ func (*Parser).parseOperand props: C05
@@ -1076,7 +1123,7 @@ package twig
 //@ func (*ZeroAllocTokenizer).GetStringConstant props: C05
 //@   modifies t.tempStrings, elems(t.tempStrings)
 // the canonical spelling of a name is the name (C20: which member x.Name means; C08, C14)
-//@   ensures[C05,C20,C08,C14] ret == s
+//@   ensures[C05,C20,C08,C14,C01] ret == s
 //@   ensures arrRef(t.tempStrings) == old(arrRef(t.tempStrings)) || freshArr(t.tempStrings)
 //@ func countNewlines props: C05
 //@   pure
@@ -1283,8 +1330,14 @@ package twig
 //@   pure
 //@   function
 //@   loop 1 invariant 0 <= i
+// a backslash and the byte after it are read together, wherever in the literal they stand (C20: the
+// key x['6\''] names; C08: the value of a string literal): one iteration consumes two bytes exactly
+// when it starts at a backslash that is not the last byte, one byte otherwise
 //@ func processEscapeSequences props: C05
 //@   loop 1 invariant 0 <= i
+//@   loop 1 snapshot i0 i
+//@   loop 1 step[C20,C08] s[i0] == 92 && i0 + 1 < len(s) ==> i == i0 + 2
+//@   loop 1 step[C20,C08] !(s[i0] == 92 && i0 + 1 < len(s)) ==> i == i0 + 1
 //@ func ProcessStringEscapes props: C05
 //@   loop 1 invariant 0 <= i
 //@   loop 2 invariant 0 <= i
@@ -1303,7 +1356,13 @@ package twig
 // the names a `from` tag imports are the list items as written (trimmed), the alias is what follows
 // " as ": macro names reach the parser with their spelling
 //@ define fromItem() nth(macro, 2)
+// for: the loop variables are the text before " in " as it is written (the keyword is found in a
+// lower-cased copy; the names are not taken from that copy), the sequence is the text after it (C09)
 //@ func (*ZeroAllocTokenizer).processBlockTag props: C12
+//@   atcall[C09] strings.TrimSpace#2 a0 == substr(blockContent, 0, inPos)
+//@   atcall[C09] strings.TrimSpace#3 a0 == substr(blockContent, inPos + 4, len(blockContent))
+//@   atcall[C09] (*ZeroAllocTokenizer).AddToken#5 a1 == TOKEN_NAME && a2 == iterators
+//@   atcall[C09] (*ZeroAllocTokenizer).TokenizeExpression#2 a1 == collection
 //@   atcall[C12] strings.TrimSpace#14 a0 == macros[rangeindex + 1]
 //@   atcall[C12] strings.Index#6 a0 == fn_lowerASCII_0(fromItem()) && a1 == " as "
 //@   atcall[C12] (*ZeroAllocTokenizer).AddToken#19 a1 == TOKEN_NAME && a2 == fn_TrimSpace_0(substr(fromItem(), 0, nth(asPos, 1)))
@@ -1446,6 +1505,14 @@ package twig
 //@   loop 9 invariant[C09] loopMapFresh() && has(ownLoopMap(), "length") && isInt(ownLoopMap()["length"], length)
 //@   atcall[C09,C10,C11] Node.Render#3 a2 == ctx
 //@   atcall[C09,C10,C11] Node.Render#5 a2 == ctx
+// a loop that ran leaves the context's own "loop" entry as it found it: the enclosing loop's counters
+// are put back, and a context that had none has none afterwards (C11: an included template's loops
+// do not hide the including template's loop; C09: nested loops keep their own counters)
+//@ impl (*ForNode).renderForLoop props: C11
+//@   requires ctx.context != nil
+//@   loop 4 invariant 0 <= i
+//@   loop 8 invariant 0 - 1 <= i
+//@   ensures[C11,C09] ret == nil && seq != nil && isIterable && length != 0 ==> has(ctx.context, "loop") == old(has(ctx.context, "loop")) && (old(has(ctx.context, "loop")) ==> ctx.context["loop"] == old(ctx.context["loop"]))
 //@ func sameValue props: C05
 //@   pure
 // small invariants that settle safety obligations formerly listed as undecided
